@@ -73,6 +73,52 @@ Theorem C03_one_literal_per_full_path : forall s c fuel cd pre h tl_ named cp de
 Proof. exact exact_path_members_go_into_one_literal. Qed.
 Print Assumptions C03_one_literal_per_full_path.
 
+(* what a nested literal is made of.  Into: `[name:] <Type> { .. },` with the type (and shape hint) the #[child_parents] instruction
+   in effect gives for exactly the path prefix, the name the path segment at that depth, the inside the same descent one level down *)
+Theorem C03_nested_literal_of_child : forall s c fuel cp members depth hint line ts rest,
+    is_intoish (c_kind c) = true ->
+    (match depth with None => true | Some d => Nat.ltb d (List.length (child_path_strs cp) - 1) end) = true ->
+    child_fragment s c (S (S fuel)) cp members depth hint line = Ok (ts, rest) ->
+    let nd := match depth with None => 0 | Some d => S d end in
+    exists cpa p cd name init,
+      sv_child_parents s = Some cpa /\ nth_error (child_path_strs cp) nd = Some p /\
+      find (fun x => String.eqb (cd_str x) p) (ca_data cpa) = Some cd /\
+      nth_error cp nd = Some name /\
+      init_inner s c fuel members (c_named c) (Some (cp, Some (cd_ty cd, cd_hint cd), nd)) = Ok (init, rest) /\
+      (ts = [member_tok name; P1 ":"] ++ cd_ty cd ++ init ++ [comma] \/ ts = cd_ty cd ++ init ++ [comma]).
+Proof. exact nested_literal_of_child. Qed.
+Print Assumptions C03_nested_literal_of_child.
+
+(* From, parameterised #[parent(..)]: the literal carries the type written next to the nested member (the field's own type at the top) *)
+Theorem C03_nested_literal_of_parent : forall s c fuel f p members named depth line ts rest,
+    is_from (c_kind c) = true ->
+    (match depth with None => true | Some d => Nat.ltb d (List.length (pc_sub p)) end) = true ->
+    parent_child_fragment s c (S (S fuel)) f p members named depth line = Ok (ts, rest) ->
+    let nd := match depth with None => 0 | Some d => S d end in
+    let cp := fv_member f :: map fst (pc_sub p) in
+    exists ty name init,
+      (match depth with
+       | Some d => exists m, nth_error (pc_sub p) d = Some (m, Some ty)
+       | None => fv_ty f = Some ty
+       end) /\
+      nth_error cp nd = Some name /\
+      init_inner s c fuel members named (Some (cp, Some (ty, c_hint c), nd)) = Ok (init, rest) /\
+      ts = (if c_named c then [member_tok name; P1 ":"] else []) ++ ty ++ init ++ [comma].
+Proof. exact nested_literal_of_parent. Qed.
+Print Assumptions C03_nested_literal_of_parent.
+
+(* IntoExisting: nothing is constructed, the same descent yields the inner assignments only *)
+Theorem C03_existing_descends_without_literal : forall s c fuel cp members depth hint line,
+    is_into_existing (c_kind c) = true ->
+    (match depth with None => true | Some d => Nat.ltb d (List.length (child_path_strs cp) - 1) end) = true ->
+    let nd := match depth with None => 0 | Some d => S d end in
+    child_fragment s c (S fuel) cp members depth hint line =
+    (p <- nth_str (child_path_strs cp) nd ;;
+     init_inner s c fuel members (c_named c)
+       (Some (cp, option_map (fun x => (cd_ty x, cd_hint x)) (find_child_data (sv_child_parents s) p), nd))).
+Proof. exact existing_descends_without_literal. Qed.
+Print Assumptions C03_existing_descends_without_literal.
+
 (* a bare #[parent] field is produced from the whole counterpart ... *)
 Theorem C03_parent_bare_from : forall f c hint idx n,
     fv_member f = MNamed n -> fv_attr f = None -> fv_has_parent f = true -> is_from (c_kind c) = true -> hint_eqb hint HTuple = false ->
